@@ -21,6 +21,7 @@ type vVerifier struct {
 	calls int
 	raw   string
 	ok    bool
+	iat   time.Time // the issue time the (verified) token claims: the identity provider's clock
 }
 
 func (v *vVerifier) Verify(_ context.Context, raw string) (*oidc.IDToken, error) {
@@ -34,7 +35,7 @@ func (v *vVerifier) Verify(_ context.Context, raw string) (*oidc.IDToken, error)
 		}
 		return nil, vErrVerify
 	}
-	return &oidc.IDToken{}, nil
+	return &oidc.IDToken{IssuedAt: v.iat}, nil
 }
 
 func vJSON(tag string) interface{} {
@@ -103,7 +104,7 @@ func vToken(idToken interface{}, has bool) *oauth2.Token {
 }
 
 // a session is built only from a token the verifier accepted; claims map to fields; unverified e-mail refused
-// verif: unwind=8 strlen=8 also=C14,C19 paths=40000
+// verif: unwind=8 strlen=8 also=C14,C19,C09 paths=40000
 func vh_C04_create_session() {
 	claims := map[string]interface{}{"sub": "someone"}
 	for _, c := range []string{"email", "email_verified"} {
@@ -124,6 +125,13 @@ func vh_C04_create_session() {
 		idt = float64(7) // wrongly typed id_token
 	}
 	ver := &vVerifier{}
+	// the identity provider's clock may be off by minutes either way
+	skew := ndInt("idp-clock-skew-seconds")
+	verifAssume(skew >= -600 && skew <= 600)
+	nowSec := time.Now().Unix()
+	if ndBool("id-token-has-iat") {
+		ver.iat = time.Unix(nowSec+int64(skew), 0)
+	}
 	pd := &ProviderData{Verifier: ver, EmailClaim: options.OIDCEmailClaim, UserClaim: "sub", GroupsClaim: "groups", AllowUnverifiedEmail: ndBool("allow-unverified-email")}
 	p := &OIDCProvider{ProviderData: pd}
 	refresh := ndBool("refresh")
@@ -131,6 +139,8 @@ func vh_C04_create_session() {
 	if err == nil {
 		verifReach("session")
 		verifAssert("C04.create.non-nil", ss != nil)
+		// the session's lifetime starts on the proxy's clock, now -- not at a time a token names
+		verifAssert("C09.create.session-starts-now-on-the-proxy-clock", ss != nil && ss.CreatedAt != nil && ss.CreatedAt.Unix() >= nowSec-2 && ss.CreatedAt.Unix() <= nowSec+2)
 		if ss.IDToken != "" {
 			verifReach("with-id-token")
 			verifAssert("C04.create.id-token-verified", ver.calls == 1 && ver.ok && ver.raw == ss.IDToken && ss.IDToken == tok)
